@@ -25,7 +25,11 @@ def run(pid, tier, seed):
     try:
         p = subprocess.run(cmd, capture_output=True, text=True, timeout=1800, env=env)
     except subprocess.TimeoutExpired:
-        out["undecided"].append("probe timed out")
+        # the probe finishes in seconds on the unchanged tree: 30 minutes without a result is non-termination of the real code
+        rec = {"kind": "probe", "name": pc["func"], "input": "the probe run of the real code did not finish within 1800 s (seconds on the unchanged tree)", "observed": "no result (non-termination)", "expected": "a value or an error", "holds": False}
+        out["bounded_items"] = [{"harness": "probe::" + pc["func"], "bound": pc["bound"], "status": "failed", "what": pc["what"]}]
+        out["violations"].append({"obligation": pc["name"], "kind": "bounded probe on the real code did not terminate", "where": pc.get("where", ""), "code": "",
+                                  "verifier_output": "", "counterexample": rec, "item": None, "unit": "probe", "bounded": True})
         return out
     rec = None
     for line in p.stdout.split("\n"):
@@ -36,8 +40,12 @@ def run(pid, tier, seed):
             except Exception:  # noqa
                 pass
     bound = pc["bound_thorough"] if tier == "thorough" and pc.get("bound_thorough") else pc["bound"]
+    if (rec is None or "result" not in rec and rec.get("holds") is not False) and p.returncode != 0:
+        # the real code brought the probe process down (stack overflow, abort, signal) -- on the unchanged tree the probe runs to the end
+        from vxlib import replay as _rp
+        rec = _rp._aborted(pc["func"], p)
     if rec is None:
-        out["undecided"].append("probe produced no result (crashed?): " + (p.stderr[-400:] or p.stdout[-400:]))
+        out["undecided"].append("probe produced no result: " + (p.stderr[-400:] or p.stdout[-400:]))
         return out
     name = pc["name"]
     if rec.get("holds") is False:
